@@ -63,6 +63,16 @@ CHECKS.update({
          "slot exchange of swaps are independent of the enabled subset. 'No out-of-range access with a kind disabled' is decided by sanitizers on the lock-step runs in all 32 mode cells and the twin-mesh oracle.",
          "Coq proof (re-enable exact, closure independent of caches) + lock step in all incidence subsets x deletion modes under sanitizers + twin-mesh oracle", "6 C12"),
 })
+CHECKS.update({
+ "C13": ("proof", "Theorems about a heap model (storages, meshes, handles; aliasing expressible) for every reachable world: two meshes never reach a common storage; an operation on one mesh changes no other mesh record and no "
+         "storage attached to another mesh (frame, all 23 operations); copy = equal kernel record + equal-valued persistent properties + nothing else carried over; old handles of an assigned-to mesh stay valid, resized, "
+         "unshared; self-assignment is the identity. One refuted corner (known finding F6). Tie: multi-mesh scripts in lock step on the real library (poly/tet/hex, mixed assignment) under ASan/UBSan; independence oracle.",
+         "Coq invariant/frame proofs over a heap model; lock-step correspondence on multi-mesh scripts; snapshot-independence oracle", "6 C13"),
+ "C14": ("proof", "Theorems for every reachable world of the registry model: persistent implies shared; shared implies named and unique (for histories without set_name on a shared property; refuted with witness otherwise - known "
+         "finding D10); tracker = exactly the live attached storages; a storage exists iff referenced; request returns the existing shared storage iff one exists; create_* refuses duplicates; private never found; failing "
+         "transitions change nothing; a handle outliving its mesh keeps its data, detached. Memory safety proper is observed by sanitizers over all 120 destruction orders, not proved.",
+         "Coq invariant by induction over registry histories + refutation witness; lock-step correspondence; invariant oracle under ASan/UBSan", "6 C14"),
+})
 NOT_YET = {}
 def main():
     props = [json.loads(l)["id"] for l in open(os.path.join(VERIF, "properties.jsonl"))]
